@@ -288,6 +288,17 @@ def arr_getitem(ex, obj, idx):
     c = cell(ex, obj)
     if isinstance(idx, VTuple) and len(idx.items) == 1 and ex.is_arr(idx.items[0]):
         idx = idx.items[0]                    # a[(index_array,)] == a[index_array]
+    if isinstance(idx, VTuple) and len(idx.items) == len(c.shape) and len(idx.items) >= 2 and all(ex.is_arr(i) for i in idx.items):
+        ics = [cell(ex, i) for i in idx.items]
+        if all(is_conc(ic.dtype.v) and ic.dtype.v.startswith(("int", "uint")) and len(ic.shape) == 1 for ic in ics):
+            # a[rows_idx, cols_idx, ...] with one 1-D integer array per axis (equal lengths: numpy broadcasts, here they come from one
+            # np.nonzero): a gather, result[m] = a[rows_idx[m], cols_idx[m], ...]  (a copy)
+            iels, ael, dims = [ic.elem for ic in ics], c.elem, [z_int(d) for d in c.shape]
+
+            def gather_nd(ix, iels=iels, ael=ael, dims=dims):
+                ts = [z_int(int_of(ie((ix[0],)))) for ie in iels]
+                return ael(tuple(z3.If(t >= 0, t, t + n) for t, n in zip(ts, dims)))
+            return new_array(ex, (ics[0].shape[0],), c.dtype, gather_nd)
     if ex.is_arr(idx):
         ic = cell(ex, idx)
         if is_conc(ic.dtype.v) and ic.dtype.v.startswith(("int", "uint")) and len(ic.shape) == 1 and len(c.shape) == 1:
@@ -902,6 +913,34 @@ def _where(ex, args, kwargs, fr):
     _, fa, fb = broadcast(ex, a, b) if (ex.is_arr(a) or ex.is_arr(b)) else (None, lambda ix: a, lambda ix: b)
     return new_array(ex, mc.shape, result_dtype(ex, a, b) if (ex.is_arr(a) or ex.is_arr(b)) else VDtype("float64"),
                      lambda ix: ite_val(z_bool(mc.elem(ix).v), fa(ix), fb(ix)))
+
+
+@npfn("numpy.nonzero")
+def _nonzero(ex, args, kwargs, fr):
+    """np.nonzero(mask) (library contract). 1-D: as np.where(mask). 2-D: a pair (row indices, column indices) of equal length M
+    enumerating ALL the cells where the mask holds in row-major order: with the flat index W(m) = row * ncols + col, W is strictly
+    increasing. Pointwise facts at the registered 1-D generic indices; M is a fresh integer in 0..size. The row-index array carries
+    the tag ("where", W, M) like np.where's result (W = flat index)."""
+    m = args[0]
+    if not ex.is_arr(m):
+        raise Unsupported("np.nonzero of a non-array")
+    mc = cell(ex, m)
+    if len(mc.shape) == 1:
+        return _where(ex, [m], {}, fr)
+    if len(mc.shape) != 2:
+        raise Unsupported("np.nonzero of an array with more than two axes")
+    M = ex.st.fresh_int("n_true")
+    W = z3.Function(ex.st.fresh_name("where_index"), z3.IntSort(), z3.IntSort())
+    nr, nc = z_int(mc.shape[0]), z_int(mc.shape[1])
+    ex.st.assume(z3.And(M >= 0, M <= nr * nc))
+    for g in generic_indices(ex, 1):
+        k = z_int(g[0])
+        ex.st.assume(z3.Implies(z3.And(k >= 0, k < M), z3.And(W(k) >= 0, W(k) < nr * nc, W(k) / nc >= 0, W(k) / nc < nr, z_bool(truth(mc.elem((W(k) / nc, W(k) % nc)))),
+                                                                z3.Implies(k + 1 < M, W(k) < W(k + 1)))))
+    rows = new_array(ex, (M,), VDtype("int64"), lambda ix, W=W, nc=nc: VInt(W(z_int(ix[0])) / nc))
+    cols = new_array(ex, (M,), VDtype("int64"), lambda ix, W=W, nc=nc: VInt(W(z_int(ix[0])) % nc))
+    ex.st.cell(rows).tag = ("where", W, M)
+    return VTuple([rows, cols])
 
 
 def reduce_minmax(ex, v, is_min):
